@@ -1,4 +1,112 @@
-(** C14 - placeholder while the proofs are being written (replaced in this session). *)
-From Coq Require Import List ZArith.
-From HK Require Import Model.Queue Model.QueueMon.
-Theorem C14_placeholder : True. Proof. exact I. Qed.
+(** C14 - operator queue mutations touch exactly what they name.
+    Only theorem statements; proofs are [exact] of lemmas from Proofs/. *)
+From Coq Require Import List ZArith NArith Bool Sorted Permutation.
+From HK Require Import Model.Queue Model.QueueMon Proofs.QueueBase Proofs.QueueInv Proofs.QueueInvStep
+  Proofs.QueueStep Proofs.QueueManage.
+Import ListNotations.
+Open Scope Z_scope.
+
+(** by ids (cancel / requeue / resume / DLQ requeue / DLQ delete): exactly the named messages that are in
+    a state the operation is defined for change, exactly as the operation defines (deleted for DLQ
+    delete); every other message is identical afterwards; nothing appears; the count is the number selected *)
+Theorem C14_by_ids_exact : forall now k idl s s' r,
+  Inv s -> step_manage now k idl s = (s', r) ->
+  let nids := norm_ids idl [] in
+  let sel m := memN (m_id m) nids && allowed_from k (m_st m) in
+  (forall m, In m (msgs s) -> find_id (m_id m) (msgs s') = if sel m then manage_effect now k m else Some m)
+  /\ incl (ids (msgs s')) (ids (msgs s))
+  /\ exists n matched, r = RCount n matched false /\ n = Z.of_nat (length (filter sel (msgs s))).
+Proof. exact manage_by_ids_exact. Qed.
+
+(** the allowed-state sets are the documented ones *)
+Theorem C14_allowed_states : forall k st,
+  allowed_from k st = true <->
+  match k with
+  | MCancel => st = Queued \/ st = Leased \/ st = Dead
+  | MRequeue => st = Dead \/ st = Canceled
+  | MResume => st = Canceled
+  | MRequeueDead | MDeleteDead => st = Dead
+  end.
+Proof.
+  intros k st. destruct k; destruct st; simpl; split; intros H; try reflexivity; try discriminate; auto;
+    repeat (destruct H as [H | H]); try discriminate; try reflexivity; auto.
+Qed.
+
+(** reported counts equal the number of messages actually changed *)
+Theorem C14_count_is_changed : forall now k idl s s' n matched,
+  Inv s -> step_manage now k idl s = (s', RCount n matched false) ->
+  n = Z.of_nat (length (filter (fun m => negb (opt_msg_eqb (find_id (m_id m) (msgs s')) (Some m))) (msgs s))).
+Proof. exact manage_count_is_changed. Qed.
+
+(** cancelling a leased message voids its lease *)
+Theorem C14_cancel_voids_lease : forall now idl s s' r m l,
+  Inv s -> step_manage now MCancel idl s = (s', r) -> In m (msgs s) -> m_lease m = Some l ->
+  In (m_id m) (norm_ids idl []) -> current now l (msgs s') = None.
+Proof. exact cancel_voids_lease. Qed.
+
+(** by filter: the selection is a newest-first (received_at, then id, descending) prefix of at most
+    limit (default 100, max 1000) of exactly the messages matching every given criterion from an
+    allowed state; a state criterion outside the allowed set selects nothing *)
+Theorem C14_filter_selection : forall k f l,
+  let cand := filter (fun m => filt_match f m && allowed_from k (m_st m)) l in
+  let sorted := sort_by m_recv false cand in
+  (match f_state f with Some x => allowed_from k x | None => true end = true ->
+     filter_select k f l = map m_id (firstn (Z.to_nat (eff_limit (f_limit f))) sorted))
+  /\ (match f_state f with Some x => allowed_from k x | None => true end = false -> filter_select k f l = [])
+  /\ Sorted desc_le sorted /\ Permutation cand sorted
+  /\ (Z.of_nat (length (filter_select k f l)) <= eff_limit (f_limit f))
+  /\ (forall i, In i (filter_select k f l) -> exists m, In m l /\ m_id m = i /\ filt_match f m = true /\ allowed_from k (m_st m) = true).
+Proof. exact filter_select_spec. Qed.
+
+Theorem C14_limit_normalisation : forall lim, 1 <= eff_limit lim <= 1000 /\ (lim <= 0 -> eff_limit lim = 100) /\ (1 <= lim <= 1000 -> eff_limit lim = lim).
+Proof.
+  intros lim. split; [exact (eff_limit_range lim)|]. unfold eff_limit, Gen.Consts.mem_list_limit_default, Gen.Consts.mem_list_limit_cap. split.
+  - intros H. apply Z.leb_le in H. rewrite H. reflexivity.
+  - intros [H1 H2]. assert (E1 : (lim <=? 0) = false) by (apply Z.leb_gt; Lia.lia). rewrite E1.
+    assert (E2 : (1000 <? lim) = false) by (apply Z.ltb_ge; Lia.lia). rewrite E2. reflexivity.
+Qed.
+
+(** by filter: preview changes nothing and reports the count; a real run changes exactly the selection *)
+Theorem C14_by_filter_exact : forall now k f s s' r,
+  Inv s -> step_manage_f now k f s = (s', r) ->
+  let idl := filter_select k f (msgs s) in
+  let matched := Z.of_nat (length idl) in
+  if f_preview f then s' = s /\ r = RCount 0 matched true
+  else
+    (forall m, In m (msgs s) ->
+       find_id (m_id m) (msgs s') = if memN (m_id m) idl && allowed_from k (m_st m) then manage_effect now k m else Some m)
+    /\ incl (ids (msgs s')) (ids (msgs s))
+    /\ r = RCount (Z.of_nat (length (selected k idl (msgs s)))) matched false.
+Proof. exact manage_by_filter_exact. Qed.
+
+(** preview_only reports the count a real run on the same queue would match, and a real run changes
+    exactly as many messages as it matched *)
+Theorem C14_preview_equals_real : forall now k f s,
+  let fp := mkFilt (f_route f) (f_target f) (f_state f) (f_limit f) (f_before f) true in
+  let fr := mkFilt (f_route f) (f_target f) (f_state f) (f_limit f) (f_before f) false in
+  exists a b n, snd (step_manage_f now k fp s) = RCount a n true /\ snd (step_manage_f now k fr s) = RCount b n false
+                /\ fst (step_manage_f now k fp s) = s.
+Proof. exact preview_equals_real. Qed.
+
+Theorem C14_filter_changed_equals_matched : forall now k f s,
+  Inv s -> f_preview f = false -> exists n, snd (step_manage_f now k f s) = RCount n n false.
+Proof. exact filter_count_is_matched. Qed.
+
+Example C14_witness :
+  let e i t := mkEnq (Some i) 1%N 1%N (Some t) None 5%N 0%N 0%N in
+  let o0 := mkOracle [] [] [] [] in
+  map (fun ev => (ev_res ev, map (fun m => (m_id m, m_st m)) (ev_after ev)))
+      (model_trace Mem (mkCfg 0 false 0 0 0 0 0 0)
+         [(Enqueue 100 (e 1%N 50), o0); (Enqueue 100 (e 2%N 50), o0); (Enqueue 100 (e 3%N 60), o0);
+          (ManageF 200 MCancel (mkFilt None None (Some Queued) 2 None false), o0)])
+  = [(RUnit, [(1%N, Queued)]); (RUnit, [(1%N, Queued); (2%N, Queued)]); (RUnit, [(1%N, Queued); (2%N, Queued); (3%N, Queued)]);
+     (RCount 2 2 false, [(1%N, Queued); (2%N, Canceled); (3%N, Canceled)])].   (* newest first: 3, then the tie 2 before 1 *)
+Proof. vm_compute. reflexivity. Qed.
+
+Print Assumptions C14_by_ids_exact.
+Print Assumptions C14_count_is_changed.
+Print Assumptions C14_cancel_voids_lease.
+Print Assumptions C14_filter_selection.
+Print Assumptions C14_by_filter_exact.
+Print Assumptions C14_preview_equals_real.
+Print Assumptions C14_filter_changed_equals_matched.
